@@ -187,7 +187,7 @@ impl CaseSpec {
 impl CaseSpec {
     /// medium / large instance (12+ variables)
     pub fn is_big(&self) -> bool {
-        match self.family { 'T' => (self.size & 0xF) >= 3, 'K' | 'P' => self.size >= 4, 'Q' => self.size >= 3, _ => false }
+        match self.family { 'T' => (self.size & 0xF) >= 3, 'K' | 'P' => self.size >= 4 && self.size != 3, 'Q' => self.size >= 3, _ => false }
     }
 }
 
@@ -240,7 +240,7 @@ pub fn random_spec(rng: &mut Rng, p: &Profile) -> CaseSpec {
             s
         }
         'Q' => if medium { QSZ_MEDIUM } else if p.small && rng.chance(1, 2) { QSZ_SMALL } else { QSZ_TINY },
-        'K' => if large { KSZ_LARGE } else if medium { KSZ_MEDIUM } else if p.reconvergent { KSZ_FEWWEIGHTS } else if p.small && rng.chance(1, 2) { KSZ_SMALL } else { *rng.pick(&[KSZ_TINY, KSZ_TINY, KSZ_FEWWEIGHTS]) },
+        'K' => if large { if rng.chance(1, 2) { KSZ_LARGE_FEW } else { KSZ_LARGE } } else if medium { KSZ_MEDIUM } else if p.reconvergent { KSZ_FEWWEIGHTS } else if p.small && rng.chance(1, 2) { KSZ_SMALL } else { *rng.pick(&[KSZ_TINY, KSZ_TINY, KSZ_FEWWEIGHTS]) },
         _ => if large { PSZ_LARGE } else if medium { PSZ_MEDIUM } else if p.reconvergent { PSZ_SPARSE } else if p.small && rng.chance(1, 2) { PSZ_SMALL } else { *rng.pick(&[PSZ_TINY, PSZ_TINY, PSZ_SPARSE]) },
     };
     let variant = random_variant(rng, p.with_dominance);
